@@ -432,7 +432,8 @@ def readProperty (lim : Nat) (st : RS) : RS :=
     let w1 := extractWord (IStream.ofStr line)
     let w2 := extractWord w1.2
     let name := extractQuoted line
-    match vtOfName (lower (w2.1.getD [])), entOfName (lower (w1.1.getD [])) with
+    if name.isEmpty then st       -- a property without a name is ignored (A3)
+    else match vtOfName (lower (w2.1.getD [])), entOfName (lower (w1.1.getD [])) with
     | some vt, some k =>
       match readVals lim vt (oldVals st k vt name) st.is with
       | .error n => { st with err := some (.alloc n) }
